@@ -271,9 +271,9 @@ class World:
             cls = self.classes[0]
             u = get_script_url("js", cls, None)
             tail = f"{cls._class_hash}.js"
-            if not u.endswith(tail):
-                raise MachineryError(f"unexpected script URL shape {u!r}")
-            self.prefix = u[: -len(tail)]
+            # the documented location (docs/guides/devguides/dependency_mgmt.md) if the library's own
+            # URL builder does not produce the documented shape
+            self.prefix = u[: -len(tail)] if u.endswith(tail) else "/components/cache/"
         return self.prefix
 
     def url_for(self, req: Dict[str, Any], salt: int = 0) -> Optional[str]:
@@ -461,6 +461,8 @@ class Rows:
 
 
 _ROWS: Dict[str, Rows] = {}
+_EXPORTS: Dict[str, Any] = {}      # selftest only: the specification side is the same for every probe
+_KEEP_EXPORTS = False
 
 
 def walk(rows: Rows, acts: List[Dict[str, Any]], checked: set, salt: int) -> Dict[str, Any]:
@@ -621,11 +623,16 @@ def model_check_and_replay(chk: Check, tier: str, procs: int, only: Optional[Lis
         name = c.pop("name")
         cfg = w / f"{name}.cfg"
         out = w / f"{name}.ndjson"
-        mc_cfg(cfg, devs=ALL_DEVS, **c)
-        r = tlc.require_ok(tlc.run("MC_C19", str(cfg), env={"OUT": str(out)}, workers=1, heap="3g"), f"MC_C19 {name}")
-        raw = tlc.read_ndjson(out)
-        if len(raw) != r.distinct - 1:
-            raise MachineryError(f"export incomplete: {len(raw)} rows for {r.distinct} states ({name})")
+        if (tier, name) in _EXPORTS:
+            r, raw = _EXPORTS[(tier, name)]
+        else:
+            mc_cfg(cfg, devs=ALL_DEVS, **c)
+            r = tlc.require_ok(tlc.run("MC_C19", str(cfg), env={"OUT": str(out)}, workers=1, heap="3g"), f"MC_C19 {name}")
+            raw = tlc.read_ndjson(out)
+            if len(raw) != r.distinct - 1:
+                raise MachineryError(f"export incomplete: {len(raw)} rows for {r.distinct} states ({name})")
+            if _KEEP_EXPORTS:
+                _EXPORTS[(tier, name)] = (r, raw)
         rows = Rows(name, raw)
         _ROWS[name] = rows
         n = len(rows.drives) if limit is None else min(limit, len(rows.drives))
@@ -788,10 +795,10 @@ def validate_traces(chk: Check, ntraces: int, length: int, ext: bool, tag: str) 
 # ================================================================= entry points
 def core(chk: Check, tier: str, procs: int, small: bool = False) -> None:
     if small:       # selftest body: same machinery, reduced sizes, one process
-        model_check_and_replay(chk, "quick", 1, only=["H1"], limit=700)
-        model_check_and_replay(chk, "quick", 1, only=["H2", "R", "S", "D"], limit=150)
-        validate_traces(chk, 12, 25, ext=False, tag="core")
-        validate_traces(chk, 8, 25, ext=True, tag="ext")
+        model_check_and_replay(chk, "quick", 1, only=["H1"], limit=250)
+        model_check_and_replay(chk, "quick", 1, only=["H2", "R", "S", "D"], limit=60)
+        validate_traces(chk, 10, 25, ext=False, tag="core")
+        validate_traces(chk, 6, 25, ext=True, tag="ext")
         return
     q = tier == "quick"
     model_check_and_replay(chk, tier, procs)
@@ -1000,6 +1007,8 @@ def selftest(tier: str) -> int:
         return patch(dep, "_cache_script", f)
 
     def body(chk):
+        global _KEEP_EXPORTS
+        _KEEP_EXPORTS = True
         core(chk, "quick", 1, small=True)
 
     return run_probes(PID, [
